@@ -262,3 +262,59 @@ Example display_writer_examples :
   b64_display_w ([], 8) [102; 111; 111; 98] = Ok (([90; 109; 57; 118; 89; 103; 61; 61], 0), true) /\
   b16_display_w ([], 3) [240; 15] = Ok (([70; 48], 1), false).
 Proof. vm_compute. repeat split. Qed.
+
+(* ---- base32hex display into a failing writer ---- *)
+
+Lemma w_seq_ok l : forall w, w_seq w (map Ok l) = Ok (w_each w l).
+Proof.
+  induction l as [|c r IH]; intros w; cbn [map w_seq w_each bind]; [reflexivity|].
+  destruct (w_chars w [c]); [apply IH|reflexivity].
+Qed.
+
+Lemma w_each_app a : forall w b,
+  w_each w (a ++ b) = if snd (w_each w a) then w_each (fst (w_each w a)) b else w_each w a.
+Proof.
+  induction a as [|c r IH]; intros w b; cbn [app w_each]; [reflexivity|].
+  destruct (w_chars w [c]); [apply IH|reflexivity].
+Qed.
+
+Lemma b32_display_w_each bs : forall w, octets bs ->
+  b32_display_w w bs = Ok (w_each w (spec_enc32 bs)).
+Proof.
+  induction bs as [|a|a b|a b c|a b c d|a b c d e r IH] using list_ind5; intros w H.
+  - reflexivity.
+  - inv_octets H. cbn [b32_display_w].
+    rewrite b32_e0_spec, b32_e1_last_spec by assumption. rewrite !b32_ch_val.
+    exact (w_seq_ok [_; _] w).
+  - inv_octets H. cbn [b32_display_w].
+    rewrite b32_e0_spec, b32_e1_spec, b32_e2_spec, b32_e3_last_spec by assumption. rewrite !b32_ch_val.
+    exact (w_seq_ok [_; _; _; _] w).
+  - inv_octets H. cbn [b32_display_w].
+    rewrite b32_e0_spec, b32_e1_spec, b32_e2_spec, b32_e3_spec, b32_e4_last_spec by assumption.
+    rewrite !b32_ch_val. exact (w_seq_ok [_; _; _; _; _] w).
+  - inv_octets H. cbn [b32_display_w].
+    rewrite b32_e0_spec, b32_e1_spec, b32_e2_spec, b32_e3_spec, b32_e4_spec, b32_e5_spec,
+      b32_e6_last_spec by assumption.
+    rewrite !b32_ch_val. exact (w_seq_ok [_; _; _; _; _; _; _] w).
+  - inv_octets H. cbn [b32_display_w].
+    rewrite b32_e0_spec, b32_e1_spec, b32_e2_spec, b32_e3_spec, b32_e4_spec, b32_e5_spec,
+      b32_e6_spec, b32_e7_spec by assumption.
+    rewrite !b32_ch_val.
+    match goal with |- context [w_seq w [Ok ?q0; Ok ?q1; Ok ?q2; Ok ?q3; Ok ?q4; Ok ?q5; Ok ?q6; Ok ?q7]] =>
+      change (w_seq w [Ok q0; Ok q1; Ok q2; Ok q3; Ok q4; Ok q5; Ok q6; Ok q7])
+        with (w_seq w (map Ok [q0; q1; q2; q3; q4; q5; q6; q7])) end.
+    rewrite w_seq_ok. cbn [bind].
+    rewrite spec_enc32_step.
+    match goal with |- context [w_each w [?q0; ?q1; ?q2; ?q3; ?q4; ?q5; ?q6; ?q7]] =>
+      change (q0 :: q1 :: q2 :: q3 :: q4 :: q5 :: q6 :: q7 :: spec_enc32 r)
+        with ([q0; q1; q2; q3; q4; q5; q6; q7] ++ spec_enc32 r) end.
+    rewrite w_each_app.
+    destruct (w_each w _) as [w' ok]. cbn [fst snd]. destruct ok; [apply IH, H|reflexivity].
+Qed.
+
+Theorem b32_display_into_writer bs room : octets bs ->
+  b32_display_w ([], room) bs =
+  Ok (if N.of_nat (length (spec_enc32 bs)) <=? room
+      then ((spec_enc32 bs, room - N.of_nat (length (spec_enc32 bs))), true)
+      else ((firstn (N.to_nat room) (spec_enc32 bs), 0), false)).
+Proof. intros H. rewrite b32_display_w_each by exact H. rewrite w_each_closed. reflexivity. Qed.
